@@ -10,7 +10,7 @@ use std::collections::HashSet;
 
 pub fn run<T: El>(c: &Case) {
   unsafe {
-    elem::ID_LIMIT = if T::NAME == "b1" { 255 } else { elem::MAXID as u32 };
+    elem::ID_LIMIT = if T::NAME == "b1" || T::NAME == "p1" { 255 } else { elem::MAXID as u32 };
     elem::PANIC_AT = c.panic_at;
     elem::EQ_SCRIPT = c.eq_script.clone();
     alloc::FAIL_AT = c.allocfail_at;
